@@ -143,6 +143,10 @@ pub struct ExecOpts {
     pub urgent_cats: Vec<&'static str>,
     /// scheduling constraints that make a rare situation reachable (exploration goes on around them)
     pub holds: Vec<Hold>,
+    /// (category, passive actor name): points of the category hit by runtime threads belong to that actor
+    pub passive_cats: Vec<(&'static str, String)>,
+    /// after a Tick make every worker run through its event loop once (the io time-outs are fired there)
+    pub kick_workers: Vec<usize>,
 }
 
 /// `actor` is not offered for its `nth` pass of `site` until `until_actor` has passed `until_site`
@@ -182,6 +186,8 @@ impl Default for ExecOpts {
             custom_env: vec![],
             urgent_cats: vec![],
             holds: vec![],
+            passive_cats: vec![],
+            kick_workers: vec![],
         }
     }
 }
@@ -217,6 +223,7 @@ pub fn execute(
         g.want_notes = opts.want_notes.clone();
         g.kernel_cats = opts.kernel_cats.clone();
         g.timer_actor = opts.timer_actor.as_ref().and_then(|n| names.iter().position(|x| x == n));
+        g.passive = opts.passive_cats.iter().filter_map(|(c, n)| names.iter().position(|x| x == n).map(|i| (*c, i))).collect();
     }
     for (k, d) in defs.iter().enumerate() {
         if let Some(of) = &d.kernel_of {
@@ -431,7 +438,12 @@ pub fn execute(
                             unsafe { h.coroutine().cancel() };
                         }
                     }
-                    "tick" => tick(ctl),
+                    "tick" => {
+                        tick(ctl);
+                        if !opts.kick_workers.is_empty() {
+                            kick_workers(&opts.kick_workers);
+                        }
+                    }
                     _ => {
                         if let Some(k2) = opts.custom_env.iter().position(|e| e.0 == what && e.1 == arg) {
                             custom_used[k2] = true;
@@ -455,6 +467,9 @@ pub fn execute(
                         schedule.push(Step::Env { what: "tick".into(), arg: String::new() });
                         ctl.log_env("tick", "", &names);
                         tick(ctl);
+                        if !opts.kick_workers.is_empty() {
+                            kick_workers(&opts.kick_workers);
+                        }
                         nsteps += 1;
                         continue;
                     }
@@ -538,6 +553,21 @@ pub fn finish(ctl: &'static Ctrl, out: &Outcome, mut handles: Vec<Handle>, unsti
         }
     }
     std::mem::forget(handles);
+}
+
+/// make every worker go through its event loop (twice: the second pass proves the first one, including its
+/// timer handling at the end of the loop, is complete); a worker held by an actor at a point is skipped
+pub fn kick_workers(ws: &[usize]) {
+    for _round in 0..2 {
+        let hs: Vec<_> = ws.iter().map(|k| unsafe { may::coroutine::Builder::new().id(*k).spawn(|| {}).unwrap() }).collect();
+        let t0 = std::time::Instant::now();
+        for h in hs.iter() {
+            while !h.is_done() && t0.elapsed() < Duration::from_millis(5) {
+                std::thread::yield_now();
+            }
+        }
+        std::mem::forget(hs);
+    }
 }
 
 /// advance virtual time to the next pending deadline, repeatedly, until a timer really fires
